@@ -12,4 +12,5 @@ def run(ctx):
     s = ctx['seed'] + 2
     return run_parts(ctx, [
         Part('joins', 'corr_joins', 'run', [s, 300 if q else 6000, MEASURES], specs={'sound_spec'}),
+        Part('index_code', 'corr_index', 'run', [s, 100 if q else 2000]),
     ], RULE)
